@@ -405,3 +405,26 @@ Theorem C09_saved_trees_agree :
     wsim K dm (fst (clean_all clA fsA1)) [] (fst (clean_all clC fsC1)) [].
 Proof. exact saved_trees_agree. Qed.
 Print Assumptions C09_saved_trees_agree.
+
+(* where the next invocation goes on: behind the NUMBER of entries of .pc/applied-patches - for every series, also one
+   that lists a patch file several times, where "behind the entry that carries the last applied name" is another place
+   (seeded change C09-j); the Example is such a series: count 3, first entry of that name at index 0 *)
+From RQ Require Import AppliedCount.
+Theorem C09_next_invocation_goes_by_count :
+  forall fs series af applied,
+  fs_read fs [b ".pc"; b "applied-patches"] = inl af ->
+  read_series (f_data af) = ROk applied ->
+  (List.length applied <= List.length series)%nat ->
+  List.map sp_name applied = List.map sp_name (firstn (List.length applied) series) ->
+  applied_count fs series = ROk (List.length applied).
+Proof. exact applied_count_is_length. Qed.
+Print Assumptions C09_next_invocation_goes_by_count.
+
+Example C09_count_with_a_repeated_name :
+  let sp n := {| sp_name := b n; sp_strip := 1; sp_reverse := false |} in
+  let series := [sp "a.patch"; sp "b.patch"; {| sp_name := b "a.patch"; sp_strip := 1; sp_reverse := true |}; sp "c.patch"] in
+  let fs := {| fs_files := [([b ".pc"; b "applied-patches"],
+                             {| f_data := b "a.patch" ++ [10%N] ++ b "b.patch" ++ [10%N] ++ b "a.patch" ++ [10%N]; f_mode := 420 |})];
+               fs_dirs := [[b ".pc"]]; fs_log := []; fs_fault := None; fs_fired := false |} in
+  applied_count fs series = ROk 3%nat /\ position_of (b "a.patch") series 0 = Some 0%nat.
+Proof. exact applied_count_with_a_repeated_name. Qed.
